@@ -149,5 +149,9 @@ for _c, _names in REQUIRED.items():
 # (C4E.Bridge, printed by the driver on every d.bb line) are obligations of these checks
 for _p in ("C01", "C03", "C04", "C10", "C14"):
     PROPS[_p]["bridge"] = True
+    PROPS[_p].setdefault("trusted_extra", []).append(
+        "theorems are about the single-denomination core C4E.Distr1; its tie to the code is the executable bridge C4E.Bridge "
+        "(per-denomination comparison with the code-tied model C4E.Distributor on every generated block) plus the proved "
+        "implication Params.Validate => hypotheses (cfgHyps_of_paramsValid); no all-inputs projection theorem")
     if "C4E.Bridge" not in PROPS[_p]["modules"]:
         PROPS[_p]["modules"].append("C4E.Bridge")
